@@ -446,7 +446,7 @@ impl Sim {
         let (timers, reruns) = self.world.loop_state(self.daemons[i].d);
         let parked_ok = alive && matches!(parked, Parked::AtGate { .. });
         let tm: Vec<i64> = timers.iter().take(40).map(|t| *t as i64 - T0 as i64).collect();
-        let rr: Vec<Value> = reruns.iter().map(|(t, k, key)| json!({"t": *t as i64 - T0 as i64, "k": k, "key": key, "keyk": key.to_lowercase()})).collect();
+        let rr: Vec<Value> = reruns.iter().map(|(t, k, key, n)| json!({"t": *t as i64 - T0 as i64, "k": k, "key": key, "keyk": key.to_lowercase(), "n": n})).collect();
         let line = json!({"e": "iter", "d": i, "startup": startup, "sent": sent, "events": events, "replies": replies,
             "wake": wake, "pend": self.daemons[i].pending_cmds, "alive": alive, "panicked": panicked,
             "hung": matches!(parked, Parked::Timeout), "win": win, "closed": self.closed_chans(i),
